@@ -106,6 +106,18 @@ CHECKS: dict[str, dict[str, str]] = {
         "technique": "TLA+ BIP341 specification model-checked with TLC on small trees; recorded outputs/control blocks and altered proofs validated as traces",
         "design_ref": "DESIGN.md section 4 C12",
     },
+    "C19": {
+        "text": ("The outcome alphabet of every call (parser: returned|refused; predicate: true|false; consumer: returned|refused) and the caller's-stream "
+                 "reader (StreamSession: FIFO exactly-once delivery, position on an object boundary, `missing` exact, rewind on incomplete) are TLA+ "
+                 "specifications; TLC model-checks the stream reader and enumerates fault-injected transaction encodings (every single fault, pairs in "
+                 "the thorough tier) labelled by the wire grammar. Every class parse found by introspection (check_validity on/off), the function "
+                 "parsers, text decoders, from_dict constructors and verify-style predicates are called on that corpus, on byte-, element- and "
+                 "container-level near misses of valid encodings (two levels deep), on type-confused JSON and hostile text; accepted objects are "
+                 "handed to every property and argument-free method they offer and to the sighash/engine/size consumers; reader sessions with every "
+                 "cut point are recorded from Message.parse and the other stream parsers. All recorded calls are validated by TLC as traces."),
+        "technique": "TLA+ outcome-alphabet and stream-reader specifications; TLC-enumerated fault-injected encodings replayed into the parsers; recorded calls and reader sessions validated as traces with TLC",
+        "design_ref": "DESIGN.md section 4 C19",
+    },
     "C20": {
         "text": ("TLC model-checks the NonceLife / SignerLife / WalletLedger / MemoCache machines (invariants and action "
                  "properties, exhaustive on small constants); every behaviour TLC enumerates to a depth (plus -simulate "
